@@ -51,14 +51,28 @@ def handle (line : String) : String :=
           let o2 := outcomeOf p pr2
           (hexBytes p, outcomeStr o2, match o2 with | .ok t2 => hexBytes (flat (format t2)) | _ => "none")
         | _ => ("none", "none", "none")
-      let model := s!"LEX {mLex} ; PARSE {outcomeStr mOut} ; PRINT {mPrint} ; REPARSE {mRe} ; REPRINT {mRePrint}"
+      -- `BINS` cases: what the real binary reports for an input that does not parse (same located error as the parser)
+      let isBins := ((inp.trimAscii.toString.splitOn " ").filter (· ≠ "")).contains "BINS"
+      let mB := match mOut with
+        | .err c q => s!"err {c} {hexBytes q}"
+        | _ => "na"
+      let model := s!"LEX {mLex} ; PARSE {outcomeStr mOut} ; PRINT {mPrint} ; REPARSE {mRe} ; REPRINT {mRePrint}" ++
+        (if isBins then s!" ; BPARSE {mB}" else "")
       -- judges on what the implementation did
       let secs := (impl.splitOn " ; ").map (fun x => x.trimAscii.toString)
       let jC16 := match (sect secs "LEX").bind Wire.parseToks with
         | some toks => b2s (c16 bs toks)
         | none => "FAIL"
       let iOut := (sect secs "PARSE").bind readOutcome
-      let jC08 := match iOut with | some o => b2s (c08 bs o) | none => "FAIL"
+      let jC08a := match iOut with | some o => c08 bs o | none => false
+      -- the binary's own report, when there is one: a located error of the input, never a crash, a hang or a bare failure
+      let jC08b := match sect secs "BPARSE" with
+        | none => true
+        | some "na" => true
+        | some b => match readOutcome b with
+          | some (.err c q) => c08 bs (.err c q)
+          | _ => false
+      let jC08 := b2s (jC08a && jC08b)
       let iRe := (sect secs "REPARSE").bind readOutcome
       let (jC07, jC15) := match iOut with
         | some (.ok t) => (match iRe with
